@@ -1,25 +1,36 @@
 package state_test
 
-// C06 — thorough tier only: a sample of (query, write) pairs is additionally driven through the REAL
-// blockingquery.Query loop with a stub FSMServer. The history prefix is replayed on a fresh store, the query is
-// started with MinQueryIndex = i0 (the index it reported before the write), the harness waits until the loop has
-// evaluated the query once (so it is blocked, or about to block, on the pre-state watch set), applies the write and
-// waits for the loop to return.
+// C06 — a sample of (query, write) pairs is additionally driven through the REAL blockingquery.Query loop with a
+// stub FSMServer, deterministically: the whole experiment runs inside a testing/synctest bubble.
 //
-// Verdicts: a loop that returns must carry an index > i0 and the post-write result (deterministic, no timing).
-// A loop that does NOT return within 200 ms is only classified: it confirms a store-level failure that was already
-// reported (label loop:confirms-missed-change) or it is logged (loop:timeout-unconfirmed); no verdict depends on the
-// timeout alone.
+// The history prefix is replayed on a fresh store (created inside the bubble, so that every memdb watch channel
+// belongs to it). Goroutine G calls blockingquery.Query with MinQueryIndex = i0 (the index the query reported
+// before the write) and a huge MaxQueryTime. synctest.Wait() returns when every goroutine of the bubble is durably
+// blocked, i.e. G sits in WatchSet.WatchCtx on the pre-write watch set (or has already returned). The harness
+// applies the write and calls synctest.Wait() again: now "G has not returned" is an exact observation, not a
+// timeout. Then the stub's shutdown channel is closed (it is the parent context of the loop) and G is collected.
+//
+// Verdicts (all deterministic):
+//   - result changed, the store-level implication held, G still blocked  => C06/blocked-query-not-woken/<family>/<write>
+//   - G returned without error but with index <= i0, or with a result that is not the post-write result
+//   - the endpoint answer became an error and G returned without one
+// A G that stays blocked where the store-level implication already failed (reported / known) only confirms it.
+//
+// Queries that answer "not found" return the sentinel the endpoints use (blockingquery.ErrNotFound with the index
+// set), so the transitions found -> deleted and missing -> created go through the loop's not-found bookkeeping.
 
 import (
-	"fmt"
+	"testing"
+	"testing/synctest"
 	"time"
 
 	"github.com/hashicorp/consul/agent/blockingquery"
 	"github.com/hashicorp/consul/agent/consul/state"
 	"github.com/hashicorp/consul/agent/structs"
+	"github.com/hashicorp/consul/internal/verifkit"
 	vs "github.com/hashicorp/consul/internal/verifstate"
 	memdb "github.com/hashicorp/go-memdb"
+	"pgregory.net/rapid"
 )
 
 type verifC06FSM struct {
@@ -28,12 +39,12 @@ type verifC06FSM struct {
 	blocking uint64
 }
 
-func (x *verifC06FSM) ConsistentRead() error                 { return nil }
-func (x *verifC06FSM) DecrementBlockingQueries() uint64      { x.blocking--; return x.blocking }
-func (x *verifC06FSM) IncrementBlockingQueries() uint64      { x.blocking++; return x.blocking }
-func (x *verifC06FSM) GetShutdownChannel() chan struct{}     { return x.shutdown }
-func (x *verifC06FSM) GetState() *state.Store                { return x.s }
-func (x *verifC06FSM) RPCQueryTimeout(time.Duration) time.Duration { return 10 * time.Minute }
+func (x *verifC06FSM) ConsistentRead() error                       { return nil }
+func (x *verifC06FSM) DecrementBlockingQueries() uint64            { x.blocking--; return x.blocking }
+func (x *verifC06FSM) IncrementBlockingQueries() uint64            { x.blocking++; return x.blocking }
+func (x *verifC06FSM) GetShutdownChannel() chan struct{}           { return x.shutdown }
+func (x *verifC06FSM) GetState() *state.Store                      { return x.s }
+func (x *verifC06FSM) RPCQueryTimeout(time.Duration) time.Duration { return 1000 * time.Hour }
 func (x *verifC06FSM) SetQueryMeta(m blockingquery.ResponseMeta, _ string) {
 	// agent/consul/rpc.go Server.SetQueryMeta (leader part): always a non-zero index
 	m.SetLastContact(0)
@@ -43,87 +54,102 @@ func (x *verifC06FSM) SetQueryMeta(m blockingquery.ResponseMeta, _ string) {
 	}
 }
 
+// verifC06InBubble runs body inside a synctest bubble, whatever kind of test drives the machine.
+func verifC06InBubble(f verifkit.F, body func(f verifkit.F)) {
+	switch t := f.(type) {
+	case *rapid.T:
+		rapid.SyncTest(t, func(rt *rapid.T) { body(rt) })
+	case *testing.T:
+		synctest.Test(t, func(st *testing.T) { body(st) })
+	default:
+		f.Fatalf("C06 loop: unsupported test driver %T", f)
+	}
+}
+
+// loop drives query qi around the last applied write through blockingquery.Query.
 func (m *verifC06Machine) loop(qi int, op *vs.Op, storeLevelFailed bool) {
-	f, c := m.f, m.c
-	if storeLevelFailed {
-		// a confirmation costs the full 200 ms wait: one per case, in a tenth of the steps (deterministic choice)
-		if m.confirmed || op.Idx%10 != 0 {
+	c := m.c
+	q := m.panel[qi]
+	want := m.cur[qi].obs // post-write observation on the main store
+	wk := verifC06WriteKind(op)
+	prefix := m.ops[:len(m.ops)-1]
+	verifC06InBubble(m.f, func(f verifkit.F) {
+		s2 := verifC06NewStore(f)
+		for _, o := range prefix {
+			vs.Apply(s2, o)
+		}
+		o0, err := q.Run(s2, memdb.NewWatchSet())
+		if err != nil || o0.NoIdx {
 			return
 		}
-		m.confirmed = true
-	}
-	q := m.panel[qi]
-	s2 := verifC06NewStore(f)
-	for _, o := range m.ops[:len(m.ops)-1] {
-		vs.Apply(s2, o)
-	}
-	o0, err := q.Run(s2, memdb.NewWatchSet())
-	if err != nil || o0.NoIdx {
-		return
-	}
-	i0 := verifC06Clamp(o0.Idx)
-	srv := &verifC06FSM{s: s2, shutdown: make(chan struct{})}
-	opts := &structs.QueryOptions{MinQueryIndex: i0, MaxQueryTime: 10 * time.Minute}
-	meta := &structs.QueryMeta{}
-	ranOnce := make(chan struct{})
-	runs := 0
-	var last verifC06Obs
-	done := make(chan error, 1)
-	go func() {
-		done <- blockingquery.Query(srv, opts, meta, func(ws memdb.WatchSet, s *state.Store) error {
-			o, err := q.Run(s, ws)
-			runs++
-			last = o
-			if runs == 1 {
-				close(ranOnce)
-			}
-			if err != nil {
-				return err
-			}
-			if o.NoIdx {
-				return structs.ErrQueryNotFound
-			}
-			meta.Index = o.Idx
-			if o.NotFound {
-				return blockingquery.ErrNotFound
-			}
-			return nil
-		})
-	}()
-	select {
-	case <-ranOnce:
-	case <-time.After(20 * time.Second):
-		c.Label("loop:never-started")
-		close(srv.shutdown)
-		return
-	}
-	vs.Apply(s2, op)
-	want := m.cur[qi].obs
-	select {
-	case err := <-done:
-		switch {
-		case want.NoIdx:
-			c.Label("loop:returned-error-on-change")
-			if err == nil {
-				c.Violation(f, "C06/loop/"+q.Fam+"/no-error-after-change", "%s around %q: the endpoint answer became an error but the blocking query returned index %d without one", q.Name, op.Desc, meta.Index)
-			}
-		case err != nil:
-			c.Violation(f, "C06/loop/"+q.Fam+"/error", "%s around %q: blocking query failed: %v", q.Name, op.Desc, err)
-		case meta.Index <= i0:
-			c.Violation(f, "C06/loop/"+q.Fam+"/returned-without-larger-index", "%s around %q: blocking query at index %d returned with index %d", q.Name, op.Desc, i0, meta.Index)
-		case last.Res != want.Res:
-			c.Violation(f, "C06/loop/"+q.Fam+"/returned-other-result", "%s around %q: blocking query returned a result that is not the post-write result\n   %s", q.Name, op.Desc, verifC06Diff(want.Res, last.Res))
+		i0 := verifC06Clamp(o0.Idx)
+		srv := &verifC06FSM{s: s2, shutdown: make(chan struct{})}
+		opts := &structs.QueryOptions{MinQueryIndex: i0, MaxQueryTime: 1000 * time.Hour}
+		meta := &structs.QueryMeta{}
+		var last verifC06Obs
+		done := make(chan error, 1)
+		go func() {
+			done <- blockingquery.Query(srv, opts, meta, func(ws memdb.WatchSet, s *state.Store) error {
+				o, err := q.Run(s, ws)
+				last = o
+				if err != nil {
+					return err
+				}
+				if o.NoIdx {
+					return structs.ErrQueryNotFound
+				}
+				meta.Index = o.Idx
+				if o.NotFound {
+					return blockingquery.ErrNotFound
+				}
+				return nil
+			})
+		}()
+		synctest.Wait() // G evaluated the pre-write state and is parked on its watch set
+		select {
+		case err := <-done:
+			// nothing changed yet: a return here means the loop does not block on an unchanged index
+			c.Violation(f, "C06/loop/"+q.Fam+"/returned-before-write", "%s: blocking query at index %d returned before any write (index %d, err %v)", q.Name, i0, meta.Index, err)
+			return
 		default:
-			c.Label("loop:returned-on-change")
 		}
-	case <-time.After(200 * time.Millisecond):
-		if storeLevelFailed {
-			c.Label("loop:confirms-missed-change")
-		} else {
-			c.Label("loop:timeout-unconfirmed")
-			fmt.Printf("C06 loop (not a verdict): %s around %q did not return within 200ms although the store-level implication held\n", q.Name, op.Desc)
+		vs.Apply(s2, op)
+		synctest.Wait() // every goroutine of the bubble is durably blocked: G returned, or it will not without another write
+		transition := "changed"
+		if want.NotFound && !o0.NotFound {
+			transition = "found-to-deleted"
+		} else if !want.NotFound && o0.NotFound {
+			transition = "missing-to-created"
 		}
-		close(srv.shutdown)
-		<-done
-	}
+		select {
+		case err := <-done:
+			switch {
+			case want.NoIdx:
+				c.Label("loop:returned-error-on-change")
+				if err == nil {
+					c.Violation(f, "C06/loop/"+q.Fam+"/no-error-after-change", "%s around %q: the endpoint answer became an error but the blocking query returned index %d without one", q.Name, op.Desc, meta.Index)
+				}
+			case err != nil:
+				c.Violation(f, "C06/loop/"+q.Fam+"/error", "%s around %q: blocking query failed: %v", q.Name, op.Desc, err)
+			case meta.Index <= i0:
+				c.Violation(f, "C06/loop/"+q.Fam+"/returned-without-larger-index", "%s around %q: blocking query at index %d returned with index %d", q.Name, op.Desc, i0, meta.Index)
+			case last.Res != want.Res:
+				c.Violation(f, "C06/loop/"+q.Fam+"/returned-other-result", "%s around %q: blocking query returned a result that is not the post-write result\n   %s", q.Name, op.Desc, verifC06Diff(want.Res, last.Res))
+			default:
+				c.Label("loop:returned-on-change")
+				c.Label("loop:returned:" + transition)
+			}
+		default:
+			// G is still blocked although the result changed
+			close(srv.shutdown)
+			<-done
+			if storeLevelFailed {
+				c.Label("loop:confirms-missed-change")
+				return
+			}
+			c.Violation(f, "C06/blocked-query-not-woken/"+q.Fam+"/"+wk,
+				"%s around %q (%s): the store-level contract held (index %d -> %d, watch fired) but a client blocked in blockingquery.Query with MinQueryIndex=%d is not answered; last index seen by the loop %d",
+				q.Name, op.Desc, transition, i0, verifC06Clamp(want.Idx), i0, meta.Index)
+		}
+	})
 }
